@@ -649,6 +649,30 @@ func checkC14(h *XHistory) {
 		if h.XP.Net.UpDup > 0 && u.Spec.Kind == "udp" {
 			healthy = healthy && true
 		}
+		if u.Spec.Kind == "quic" {
+			// DoQ: every exchange has a stream of its own, so other exchanges
+			// that the server never answers take nothing away from this one -
+			// as long as fewer exchanges are open together than the server
+			// allows streams (an exchange that has returned has given its stream
+			// back)
+			others := true
+			for tok, t2 := range h.XP.Tokens {
+				if tok != c.C.Token && !allActs(t2, func(k string) bool { return replyAct(k) || k == "silent" }) {
+					others = false
+				}
+			}
+			lim := u.Spec.QuicMaxStreams
+			if lim == 0 {
+				lim = 100
+			}
+			open := 0
+			for _, o := range h.Calls {
+				if o.C.Up == c.C.Up && o.Done && o.Start <= c.End && o.End+time.Second >= c.Start {
+					open++
+				}
+			}
+			healthy = (healthy || others && allActs(t, replyAct)) && open < lim && !faulty && !closedAny && !slowForIdle && !eventIn(h, c.C.Up, 0, c.End) && c.Limit >= delay+2*time.Second+sigma && c.C.CancelUs == 0 && h.XP.IdleMs == 0 && len(h.XP.ServerEvents) == 0
+		}
 		if healthy {
 			s.Probe("c14_liveness_checked")
 			if c.Msg == nil {
